@@ -432,6 +432,8 @@ class MinErrorFlow():
                     utils.logger.warning(f"{__name__}: model not solved, status = {self.solver.get_model_status()}")
                 
         self._is_solved = False
+        # Do not keep a solution cached by an earlier phase / earlier solve: the model is not proven optimal
+        self._solution = None
         return False
 
     def is_solved(self):
